@@ -71,7 +71,8 @@ def fs_case(draw, max_dim=5):
         if draw(st.booleans()) else [0] * entries
     folded = draw(st.booleans())
     pop_ids = draw(st.lists(LABEL, min_size=nd, max_size=nd)) if draw(st.booleans()) else None
-    return dict(shape=shape, data=data, mask=mask, folded=folded, pop_ids=pop_ids)
+    layout = draw(st.sampled_from(['C', 'C', 'F', 'view', 'strided']))
+    return dict(shape=shape, data=data, mask=mask, folded=folded, pop_ids=pop_ids, layout=layout)
 
 
 def build(c):
@@ -88,7 +89,20 @@ def build(c):
             if 2 * sum(idx) > N:
                 data[idx] = 0.0
                 mask[idx] = True
-    fs = dadi.Spectrum(data, mask=mask, mask_corners=False, data_folded=bool(c['folded']), pop_ids=c['pop_ids'])
+    layout = c.get('layout', 'C')
+    kw = dict(mask_corners=False, data_folded=bool(c['folded']))
+    if layout == 'view':
+        # a transposed view of a spectrum stored the other way round (what reorder_pops / swapaxes / .T return)
+        fs = dadi.Spectrum(np.ascontiguousarray(data.T), mask=np.ascontiguousarray(mask.T), **kw).transpose()
+        fs.pop_ids = c['pop_ids']
+    elif layout == 'F':
+        fs = dadi.Spectrum(np.asfortranarray(data), mask=np.asfortranarray(mask), pop_ids=c['pop_ids'], **kw)
+    elif layout == 'strided':
+        big = np.zeros((2 * shape[0],) + shape[1:])
+        big[::2] = data
+        fs = dadi.Spectrum(big[::2], mask=mask, pop_ids=c['pop_ids'], **kw)
+    else:
+        fs = dadi.Spectrum(data, mask=mask, pop_ids=c['pop_ids'], **kw)
     return fs, data, mask
 
 
@@ -131,7 +145,7 @@ def r1(case, rec):
     fname = os.path.join(tmpdir(), 'rt_%d.fs%s' % (os.getpid(), '.gz' if case['gz'] else ''))
     rec.case(case, _nt(c), ['dim=%d' % data.ndim, 'gz' if case['gz'] else 'plain', 'precision=%d' % case['precision'],
                             'folded' if c['folded'] else 'unfolded', 'comments=%d' % len(case['comments']),
-                            'singleton-axis' if 1 in c['shape'] else 'no-singleton'])
+                            'singleton-axis' if 1 in c['shape'] else 'no-singleton', 'layout=' + c.get('layout', 'C')])
     with dadi_call('to_file(%s)' % ('gz' if case['gz'] else 'plain'), gz=case['gz']):
         fs.to_file(fname, precision=case['precision'], comment_lines=list(case['comments']))
     require(np.array_equal(np.ma.getmaskarray(fs), mask), 'to_file changed the mask of the spectrum')
